@@ -1,0 +1,156 @@
+//go:build verif
+
+// Contracts for field.go and error.go (Field.AddTo, failure containment), read by /verif/govc.
+// Comment-only.
+
+package zapcore
+
+// Well-typed fields as far as AddTo's type assertions go: what the constructors of package zap
+// produce (C03), plus "a marshaler / Stringer / error field holds a value of that interface".
+//@ macro wfEnc(f zapcore.Field) bool = wfField(f) && (f.Type == 1 ==> implements(f.Interface, type(zapcore.ArrayMarshaler))) && (f.Type == 2 || f.Type == 28 ==> implements(f.Interface, type(zapcore.ObjectMarshaler))) && (f.Type == 25 ==> implements(f.Interface, type(fmt.Stringer))) && (f.Type == 26 ==> implements(f.Interface, type(error)))
+
+// User-supplied String() / Error() may panic (also: nil pointer receivers); zap calls them only
+// where a deferred function recovers.
+//@ iface fmt.Stringer.String
+//@   flags maypanic
+//@   modifies $user
+
+// (error.Error has a general contract in /verif/contracts/std; where the error is a user value the
+// function's contract says "maypanic-call error.Error".)
+
+//@ iface zapcore.errorGroup.Errors
+//@   flags maypanic
+//@   modifies $user
+
+// The deferred function of encodeStringer: with no panic in flight it does nothing; otherwise it
+// stops the panic and either logs "<nil>" under the key or reports the panic as the error.
+//@ func zapcore.encodeStringer$1
+//@   props C10 C01
+//@   flags nopanic
+//@   requires *enc != nil && encObj(*enc)
+//@   track AS = invoke zapcore.ObjectEncoder.AddString
+//@   modifies $user, fields(zapcore.jsonEncoder), buffer.Buffer.bs, comp(E:uint8), fields(zapcore.errArrayElem), *retErr, panicking()
+//@   ensures encObj(*enc) && !panicking()
+//@   ensures !old(panicking()) ==> *retErr == old(*retErr) && #AS == 0
+//@   ensures old(panicking()) ==> (#AS == 1 && AS.arg0[0] == *key && AS.arg1[0] == "<nil>" && *retErr == old(*retErr)) || (#AS == 0 && *retErr != nil)
+//@   ensures encFrame(*enc)
+
+// A panicking or nil Stringer is contained: the function returns normally, the encoder stays
+// well-formed, and either the text, "<nil>" or an error (PANIC=...) results.
+//@ func zapcore.encodeStringer
+//@   props C10 C01
+//@   flags nopanic
+//@   requires enc != nil && encObj(enc) && implements(stringer, type(fmt.Stringer))
+//@   modifies $user, fields(zapcore.jsonEncoder), buffer.Buffer.bs, comp(E:uint8), fields(zapcore.errArrayElem)
+//@   ensures encObj(enc)
+//@   ensures encFrame(enc)
+
+//@ func zapcore.encodeError$1
+//@   props C10 C01
+//@   flags nopanic
+//@   requires *enc != nil && encObj(*enc)
+//@   track AS = invoke zapcore.ObjectEncoder.AddString
+//@   modifies $user, fields(zapcore.jsonEncoder), buffer.Buffer.bs, comp(E:uint8), fields(zapcore.errArrayElem), *retErr, panicking()
+//@   ensures encObj(*enc) && !panicking()
+//@   ensures !old(panicking()) ==> *retErr == old(*retErr) && #AS == 0
+//@   ensures old(panicking()) ==> (#AS == 1 && AS.arg0[0] == *key && AS.arg1[0] == "<nil>" && *retErr == old(*retErr)) || (#AS == 0 && *retErr != nil)
+//@   ensures encFrame(*enc)
+
+//@ func zapcore.encodeError
+//@   props C10 C01
+//@   flags nopanic
+//@   maypanic-call error.Error
+//@   requires enc != nil && encObj(enc) && err != nil
+//@   modifies $user, fields(zapcore.jsonEncoder), buffer.Buffer.bs, comp(E:uint8), fields(zapcore.errArrayElem)
+//@   ensures encObj(enc)
+//@   ensures encFrame(enc)
+
+// errArray: nil elements are skipped; every element wrapper goes back to the pool after use,
+// whether or not encoding it failed.
+//@ typeinv *zapcore.errArrayElem e: e != nil
+//@ func zapcore.newErrArrayElem
+//@   props C10 C08
+//@   flags nopanic
+//@   requires _errArrayElemPool != nil
+//@   modifies nothing
+//@   ensures fresh(result) && result.err == err
+
+//@ func (*zapcore.errArrayElem).Free
+//@   props C10 C08
+//@   flags nopanic
+//@   requires e != nil && _errArrayElemPool != nil
+//@   modifies e.err
+//@   ensures e.err == nil
+
+//@ func (*zapcore.errArrayElem).MarshalLogObject
+//@   props C10 C01
+//@   refines zapcore.ObjectMarshaler.MarshalLogObject
+//@   flags nopanic
+//@   requires e != nil && enc != nil && encObj(enc)
+//@   assumes e.err != nil
+//@   modifies $user, fields(zapcore.jsonEncoder), buffer.Buffer.bs, comp(E:uint8), fields(zapcore.errArrayElem)
+//@   ensures encObj(enc)
+//@   ensures encFrame(enc)
+
+//@ func (zapcore.errArray).MarshalLogArray
+//@   props C10 C01 C08
+//@   refines zapcore.ArrayMarshaler.MarshalLogArray
+//@   flags nopanic
+//@   requires arr != nil && encArr(arr) && _errArrayElemPool != nil
+//@   track NE = call zapcore.newErrArrayElem
+//@   track FR = call (*zapcore.errArrayElem).Free
+//@   modifies $user, fields(zapcore.jsonEncoder), buffer.Buffer.bs, comp(E:uint8), fields(zapcore.errArrayElem)
+//@   ensures isJ(arr) ==> jok(jenc(arr)) && elemPos(jq(jenc(arr))) && j_stack(jq(jenc(arr))) == old(j_stack(jq(jenc(arr)))) && jenc(arr).openNamespaces == old(jenc(arr).openNamespaces)
+//@   ensures #FR == #NE
+//@   loop 1 invariant 0 <= $idx && $idx <= len(errs) && #FR == #NE
+//@   loop 1 invariant isJ(arr) ==> jok(jenc(arr)) && elemPos(jq(jenc(arr))) && j_stack(jq(jenc(arr))) == old(j_stack(jq(jenc(arr)))) && jenc(arr).openNamespaces == old(jenc(arr).openNamespaces)
+//@   ensures encFrame(arr)
+//@   loop 1 invariant encFrame(arr)
+
+// Field.AddTo: every well-typed field leaves the encoder in an object context; a failing
+// marshaler / Stringer / error / reflected value costs exactly one extra "<key>Error" string
+// member, written after the field's own encoder call.
+//@ func (zapcore.Field).AddTo
+//@   props C10 C01 C02
+//@   flags nopanic propagates-panics
+//@   requires enc != nil && encObj(enc) && wfEnc(f)
+//@   track ERR = invoke zapcore.ObjectEncoder.AddString
+//@   modifies $user, fields(zapcore.jsonEncoder), buffer.Buffer.bs, comp(E:uint8), fields(zapcore.errArrayElem)
+//@   ensures encObj(enc)
+//@   ensures f.Type == 15 ==> #ERR == 1
+//@   ensures f.Type != 15 ==> #ERR <= 1
+//@   ensures encFrame(enc)
+
+//@ func zapcore.addFields
+//@   props C10 C01 C02
+//@   flags nopanic propagates-panics
+//@   requires enc != nil && encObj(enc) && (forall i int :: 0 <= i && i < len(fields) ==> wfEnc(fields[i]))
+//@   track AT = call (zapcore.Field).AddTo
+//@   modifies $user, fields(zapcore.jsonEncoder), buffer.Buffer.bs, comp(E:uint8), fields(zapcore.errArrayElem)
+//@   ensures encObj(enc)
+//@   ensures #AT == len(fields)
+//@   loop 1 invariant 0 <= $idx && $idx <= len(fields) && #AT == $idx && encObj(enc)
+//@   loop 1 invariant forall i int :: 0 <= i && i < len(fields) ==> wfEnc(fields[i])
+//@   ensures encFrame(enc)
+//@   loop 1 invariant encFrame(enc)
+
+// ---------------------------------------------------------------------------
+// entry.go: caller formatting (uses a pooled buffer that is handed back before returning; C08)
+
+//@ func (zapcore.EntryCaller).FullPath
+//@   props C01 C08 C16
+//@   flags nopanic
+//@   modifies comp(E:uint8), buffer.Buffer.bs
+//@   ensures elems_frame(type(uint8), zero(type([]uint8))) && type_frame(type(buffer.Buffer))
+
+//@ func (zapcore.EntryCaller).String
+//@   props C01 C08 C16
+//@   flags nopanic
+//@   modifies comp(E:uint8), buffer.Buffer.bs
+//@   ensures elems_frame(type(uint8), zero(type([]uint8))) && type_frame(type(buffer.Buffer))
+
+//@ func (zapcore.EntryCaller).TrimmedPath
+//@   props C01 C08 C16
+//@   flags nopanic
+//@   modifies comp(E:uint8), buffer.Buffer.bs
+//@   ensures elems_frame(type(uint8), zero(type([]uint8))) && type_frame(type(buffer.Buffer))
